@@ -466,4 +466,15 @@ def r4_delivery(a, tier):
     return rep
 
 
-RULES = [r0_line_splitter, r1_parseinfo, r2_one_index, r3_line_index_exhaustive, r4_delivery]
+def r5_skip_is_a_fixpoint(a, tier):
+    """the start offset of a rule is taken after ONE next_token(): it delimits the text after leading whitespace and comments only if that call skips the whole run"""
+    from . import c09
+    rep = c09.r2_next_token_fixpoint(a, tier)
+    rep.rule = 'C12.R5'
+    for f in rep.findings:
+        f.rule = 'C12.R5'
+    rep.text = '[= C09.R2a] ' + rep.text
+    return rep
+
+
+RULES = [r0_line_splitter, r1_parseinfo, r2_one_index, r3_line_index_exhaustive, r4_delivery, r5_skip_is_a_fixpoint]
